@@ -594,6 +594,34 @@ func SpecMatch(pattern string, hasWild bool, s string) bool {
 //@ closure (*Cache).handleSystemReset#2
 //@   ensures[C06,C12] callcount("handleResetAccess") == old(callcount("handleResetAccess")) + 1 && callcount("handleResetResource") == old(callcount("handleResetResource"))
 
+// --- eviction (C09) ---------------------------------------------------------------------------
+
+// The release step of an entry: an entry that has got a user again is left alone; otherwise its
+// queued work is dropped and its messaging-system subscription is given up, once; if that fails
+// the entry is not released.
+//@ func (*EventSubscription).mqUnsubscribe
+//@   requires e != nil && e.cache != nil
+//@   ensures[C09] old(e.count) > 0 ==> !result && callcount("Unsubscribe") == old(callcount("Unsubscribe")) && e.queue == old(e.queue)
+//@   ensures[C09] old(e.count) <= 0 && old(e.mqSub) != nil ==> callcount("Unsubscribe") == old(callcount("Unsubscribe")) + 1
+//@   ensures[C09] result ==> old(e.count) <= 0 && e.queue == nil
+//@   ensures[C09] e.count == old(e.count) && e.mqSub == old(e.mqSub)
+//@   assigns e.queue
+//@   safety[C15]
+
+// Eviction (run by the unsubscribe queue when the delay has passed): the re-check of the use
+// count, the release of the event subscription and the removal from the index happen inside one
+// critical section of the index - getSubscription, which takes the same lock, finds the entry
+// either before its subscription is released or not at all; an entry that was not released stays.
+//@ func (*Cache).mqUnsubscribe
+//@   requires c != nil && typeis(v, *EventSubscription) && v.(*EventSubscription) != nil && v.(*EventSubscription).cache != nil
+//@   assumes c.eventSubs != nil
+//@   assert[C09] eventSub.mqUnsubscribe#1: held(c.mu) == old(held(c.mu)) + 1
+//@   ensures[C09] old(v.(*EventSubscription).count) > 0 ==> (forall n string :: has(c.eventSubs, n) == old(has(c.eventSubs, n)) && c.eventSubs[n] == old(c.eventSubs[n]))
+//@   ensures[C09] old(c.onUnsubscribe) == nil ==> (forall n string :: n != v.(*EventSubscription).ResourceName ==> has(c.eventSubs, n) == old(has(c.eventSubs, n)) && c.eventSubs[n] == old(c.eventSubs[n]))
+//@   assert[C09] c.onUnsubscribe#1: !has(c.eventSubs, eventSub.ResourceName) && (forall n string :: n != eventSub.ResourceName ==> has(c.eventSubs, n) == old(has(c.eventSubs, n)) && c.eventSubs[n] == old(c.eventSubs[n]))
+//@   ensures[C09] callcount("mqUnsubscribe") == old(callcount("mqUnsubscribe")) + 1
+//@   safety[C15]
+
 // --- adding a subscriber (C09, C14, C19) -----------------------------------------------------------
 
 //@ func (*ResourceSubscription).enqueueGetResponse
